@@ -571,6 +571,13 @@ func checkC20(c *km.Ctx) {
 	// ---------- R-C20-4
 	checkHistory(c, s)
 	checkHistoryFileReplace(c)
+	if fn := c.P.Func("eventmon/eventrecorder", "loadEvents"); fn != nil {
+		// a history file that does not decode is an error the daemon reports, not an empty history it starts from
+		// (the next save would overwrite what is left of the file)
+		if n := checkErrorAborts(c, "R-C20-4", fn, "(*encoding/gob.Decoder).Decode", 0, "history file that does not decode"); n == 0 {
+			r.AnchorLost("R-C20-4", "decoding of the history file in loadEvents")
+		}
+	}
 	checkSaveScheduled(c)
 }
 
